@@ -81,8 +81,27 @@ def jdefault(o):
     return repr(o)
 
 
+def sanitize(o, depth=0):
+    """Make anything JSON-serialisable (tuple keys, sets, numpy scalars, Fractions, arbitrary objects)."""
+    if depth > 12:
+        return repr(o)[:200]
+    if o is None or isinstance(o, (bool, int, str)):
+        return o
+    if isinstance(o, float):
+        return o if o == o and o not in (float("inf"), float("-inf")) else repr(o)
+    if isinstance(o, dict):
+        if all(isinstance(k, str) for k in o):
+            return {k: sanitize(v, depth + 1) for k, v in o.items()}
+        return [[sanitize(k, depth + 1), sanitize(v, depth + 1)] for k, v in o.items()]
+    if isinstance(o, (list, tuple)):
+        return [sanitize(x, depth + 1) for x in o]
+    if isinstance(o, (set, frozenset)):
+        return [sanitize(x, depth + 1) for x in sorted(o, key=repr)]
+    return jdefault(o)
+
+
 def canon(obj) -> str:
-    return json.dumps(obj, sort_keys=True, default=jdefault, separators=(",", ":"))
+    return json.dumps(sanitize(obj), sort_keys=True, default=jdefault, separators=(",", ":"))
 
 
 def digest(obj) -> str:
@@ -126,9 +145,9 @@ class Result:
         self.notes.append(why)
 
     def to_json(self):
-        return {
+        return sanitize({
             "verdict": self.verdict, "nontrivial": bool(self.nontrivial), "digest": self.digest,
             "sample": self.sample, "counters": self.counters, "witness": self.witness,
             "known": self.known, "notes": self.notes[:5],
             "sets": {k: sorted(map(str, v))[:4000] for k, v in self.sets.items()},
-        }
+        })
